@@ -13,13 +13,14 @@ open FinVerif.Model.C19
 
 /-- the model's operations read over the reals -/
 noncomputable def R : Ops ℝ :=
-  ⟨Real.exp, Real.log, Real.sqrt, max, 2, 4, 1 / 2, 1 / 4, 1 / 100000000, 99999, abs, 1 / 1000000000000⟩
+  ⟨Real.exp, Real.log, Real.sqrt, max, 2, 4, 1 / 2, 1 / 4, 1 / 100000000, 99999, abs, 1 / 1000000000000, min⟩
 
 @[simp] theorem R_exp (x : ℝ) : R.exp x = Real.exp x := rfl
 @[simp] theorem R_log (x : ℝ) : R.log x = Real.log x := rfl
 @[simp] theorem R_sqrt (x : ℝ) : R.sqrt x = Real.sqrt x := rfl
 @[simp] theorem R_max (x y : ℝ) : R.max x y = max x y := rfl
 @[simp] theorem R_abs (x : ℝ) : R.abs x = |x| := rfl
+@[simp] theorem R_min (x y : ℝ) : R.min x y = min x y := rfl
 @[simp] theorem R_two : R.two = 2 := rfl
 @[simp] theorem R_four : R.four = 4 := rfl
 @[simp] theorem R_half : R.half = 1 / 2 := rfl
